@@ -518,6 +518,10 @@ func analyzeBounds(p *core.Prog, f *core.Func) []boundsSite {
 			return false, fmt.Sprintf("index len(%s)-%d without a dominating guard len >= %d", core.ExprStr(base), k, max64(k, 1))
 		}
 		if o := core.ObjOf(info, idx); o != nil {
+			// the index was found by a search helper over this very slice: i := x.indexOf(key); if i < 0 { return }; x.S[i]
+			if ok, why := indexFromSearchHelper(p, f, g, n, base, o); ok {
+				return true, why
+			}
 			if rs, ok := rangeKey[o]; ok && rs.Body.Pos() <= idx.Pos() && idx.End() <= rs.Body.End() {
 				if core.ExprStr(rs.X) == core.ExprStr(base) {
 					return true, "index is the key of a range over the same slice"
@@ -869,4 +873,119 @@ func isParamOf(f *core.Func, o types.Object) bool {
 		}
 	}
 	return false
+}
+
+// indexFromSearchHelper: idx is a local assigned once from a call of a repository function whose every return is either a
+// negative constant or the key of a `range` over the same field of its receiver (or the same parameter) that `base`
+// names at the call site, and a dominating fact excludes the negative results (idx < 0 refuted, idx >= 0, idx != -1).
+func indexFromSearchHelper(p *core.Prog, f *core.Func, g *core.Graph, n *core.GNode, base ast.Expr, idx types.Object) (bool, string) {
+	if n == nil {
+		return false, ""
+	}
+	info := f.Pkg.TypesInfo
+	d := singleDef(f, idx)
+	if d == nil {
+		return false, ""
+	}
+	c, ok := core.Unparen(d).(*ast.CallExpr)
+	if !ok {
+		return false, ""
+	}
+	fo := core.Callee(info, c)
+	if fo == nil {
+		return false, ""
+	}
+	h := p.ByObj[fo.Origin()]
+	if h == nil || h.Body == nil {
+		return false, ""
+	}
+	hi := h.Pkg.TypesInfo
+	// what `base` is in the helper's terms: receiver.Field when base is X.Field and the call is X.h(...), or a parameter
+	var wantRecvField string
+	var wantParam types.Object
+	if bs, ok := core.Unparen(base).(*ast.SelectorExpr); ok {
+		if cs, ok := core.Unparen(c.Fun).(*ast.SelectorExpr); ok && core.ExprStr(cs.X) == core.ExprStr(bs.X) && h.RecvObj() != nil {
+			wantRecvField = bs.Sel.Name
+		}
+	}
+	for ai, a := range c.Args {
+		if core.ExprStr(a) == core.ExprStr(base) && h.ParamObj(ai) != nil {
+			wantParam = h.ParamObj(ai)
+		}
+	}
+	if wantRecvField == "" && wantParam == nil {
+		return false, ""
+	}
+	overBase := func(x ast.Expr) bool {
+		if wantParam != nil && core.ObjOf(hi, x) == wantParam {
+			return true
+		}
+		if sel, ok := core.Unparen(x).(*ast.SelectorExpr); ok && wantRecvField != "" && sel.Sel.Name == wantRecvField && core.ObjOf(hi, sel.X) == types.Object(h.RecvObj()) {
+			return true
+		}
+		return false
+	}
+	keys := map[types.Object]bool{}
+	ast.Inspect(h.Body, func(m ast.Node) bool {
+		if rs, ok := m.(*ast.RangeStmt); ok && rs.Key != nil && overBase(rs.X) {
+			if ko := core.ObjOf(hi, rs.Key); ko != nil {
+				keys[ko] = true
+			}
+		}
+		return true
+	})
+	hg := p.Graph(h)
+	nret := 0
+	for _, rn := range hg.Returns() {
+		res := returnResults(rn)
+		if len(res) < 1 {
+			return false, ""
+		}
+		nret++
+		if v, isC := core.ConstInt(hi, res[0]); isC {
+			if v >= 0 {
+				return false, ""
+			}
+			continue
+		}
+		ko := core.ObjOf(hi, res[0])
+		if ko == nil || !keys[ko] {
+			return false, ""
+		}
+		// returned from inside the loop that ranges over the slice
+		inLoop := false
+		ast.Inspect(h.Body, func(m ast.Node) bool {
+			if rs, ok := m.(*ast.RangeStmt); ok && rs.Key != nil && core.ObjOf(hi, rs.Key) == ko && rs.Body.Pos() <= rn.Ast.Pos() && rn.Ast.End() <= rs.Body.End() {
+				inLoop = true
+			}
+			return true
+		})
+		if !inLoop {
+			return false, ""
+		}
+	}
+	if nret == 0 {
+		return false, ""
+	}
+	// the negative results are excluded here
+	for _, fc := range g.FactsAt(n) {
+		be, ok := core.Unparen(fc.Expr).(*ast.BinaryExpr)
+		if !ok || fc.Tag != nil || !g.FactFresh(fc, n) {
+			continue
+		}
+		other, op, isCmp := orientCmp(info, be, idx)
+		if !isCmp {
+			continue
+		}
+		v, isC := core.ConstInt(info, other)
+		if !isC {
+			continue
+		}
+		nonNeg := (op == token.LSS && v <= 0 && !fc.Truth) || (op == token.GEQ && v >= 0 && fc.Truth) || (op == token.GTR && v >= -1 && fc.Truth) || (op == token.LEQ && v <= -1 && !fc.Truth) ||
+			(op == token.EQL && v == -1 && !fc.Truth) || (op == token.NEQ && v == -1 && fc.Truth)
+		if nonNeg {
+			return true, "index returned by " + h.Key + " (a position of a range over this slice, or a negative value that is excluded here)"
+		}
+	}
+	return false, ""
 }
